@@ -24,13 +24,15 @@ theorem gen_shape : SN.genShape = ⟨true, true, true, true⟩ := by decide
 /-- the remaining structural facts: only the three modelled functions reach `obfuscateAndSend`;
 `closeStream` sends only when active and its only non-passive call site is `Stream.Close`;
 `writingFrame.Seq` is written by exactly one statement in the package (the `Seq++`), starts at 0 and
-`obfuscate` does not modify the frame; stream ids come from one atomic counter that nothing else
+`obfuscate` does not modify the frame; `writingFrame.Closing` starts as `closingNothing`, is set once
+(to `closingStream`, in `closeStream`) and never reset; stream ids come from one atomic counter that nothing else
 touches; the session-closing notice is built in one place, after the session CAS. -/
 theorem gen_structure :
     Gen.Sender.sendCallerCount = 3 ∧ Gen.Sender.sendCallersKnown = true ∧
     Gen.Sender.closeSendOnlyIfActive = true ∧ Gen.Sender.activeCloseSites = 1 ∧
     Gen.Sender.seqIncrCount = 1 ∧ Gen.Sender.seqWriteSites = 1 ∧ Gen.Sender.obfuscateWritesFrame = 0 ∧
     Gen.Sender.seqInit = 0 ∧
+    Gen.Sender.closingWriteSites = 1 ∧ Gen.Sender.closingSetToStream = 1 ∧ Gen.Sender.closingInit = Gen.Sender.closingNothing ∧
     Gen.Sender.streamIdAtomic = true ∧ Gen.Sender.nextStreamIDUses = 1 ∧
     Gen.Sender.sessCloseOnce = true ∧ Gen.Sender.sessCloseSites = 1 ∧
     Gen.Sender.closingNothing = 0 ∧ Gen.Sender.closingStream = 1 ∧ Gen.Sender.closingSession = 2 ∧
@@ -302,7 +304,7 @@ theorem c13_nonce_unique (logs : List (List Frame))
 example :
     let calls := [Call.write [(10, .ok), (11, .ok)], Call.close 99 .ok, Call.readFrom [(12, .ok)]]
     let s := runSched (init (calls.map Call.prog)) [2, 0, 0, 0, 0, 0, 1, 0, 0, 0, 0, 1, 1, 1, 1, 1, 1, 2, 2, 2, 2, 2]
-    s.enc.map (fun f => (f.seq, f.closing, f.pl)) = [(0, false, 10), (1, false, 11), (2, true, 99), (3, false, 12)] ∧
+    s.enc.map (fun f => (f.seq, f.closing, f.pl)) = [(0, false, 10), (1, false, 11), (2, true, 99), (3, true, 12)] ∧
     s.closed = true := by decide
 
 /-- a failed send consumes its number: the next frame skips it (connection error on frame 1) -/
